@@ -1,7 +1,7 @@
 (* C01: the statements pinned in Properties/C01.v. *)
 From SC Require Import Lib.Prelude Lib.Int Lib.Host Model.Math Model.Fungible Model.FungibleObs
   Proofs.FungibleBasics Proofs.FungibleExec Proofs.FungibleAllow Proofs.FungibleInv Proofs.FungibleObsFacts
-  Run.C01 Proofs.C01Monitor.
+  Proofs.FungibleVotes Run.C01 Proofs.C01Monitor.
 
 Lemma wf_cfg_host c : wf_cfg c = true -> wf_host (c_host c).
 Proof. unfold wf_cfg, wf_host. apply Z.leb_le. Qed.
@@ -177,4 +177,13 @@ Proof.
   apply sum_balances_supply; auto. intros a Ha.
   destruct (Z.eq_dec (balance (tk (run c (init start) cs)) a) 0) as [E|E]; auto.
   exfalso. apply Ha. apply Cov. exact E.
+Qed.
+
+(* FungibleVotes flavour: the votes module's voting units mirror the balances and its latest total-supply
+   checkpoint mirrors total_supply, in every reachable state *)
+Lemma votes_units_mirror_balances : forall c start cs, wf_cfg c = true -> c_flav c = FVotes ->
+  let s := run c (init start) cs in
+  (forall a, getd (units s) a = balance (tk s) a) /\ tsvotes s = supply (tk s).
+Proof.
+  intros c start cs W F. cbn zeta. apply reachable_votes_mirror; auto. apply wf_cfg_host. exact W.
 Qed.
